@@ -18,6 +18,10 @@ import PqlModel.Props.C07OperatorIRSummarize
 import PqlModel.Props.C07OperatorIRRender
 import PqlModel.Props.C07OperatorIRJoin
 import PqlModel.Props.C07OperatorIRParse
+import PqlModel.Props.C08ErrIRUnits
+import PqlModel.Props.C08ErrIRAlgebra
+import PqlModel.Props.C08ErrIRShape
+import PqlModel.Props.C08ErrIR
 #print axioms Pql.C10.C10_union_lists_every_field
 #print axioms Pql.C10.C10_model_matches_span_table
 #print axioms Pql.C10.C10_unions_contains
